@@ -10,7 +10,7 @@ RULE = ("regression corpus + repository test snippets + seeded random programs (
 
 
 def cases(O):
-    return E.default_cases(O, "C04", n_quick=1000, n_thorough=6000)
+    return E.default_cases(O, "C04", n_quick=1000, n_thorough=18000)
 
 
 def judge(ctx):
